@@ -133,6 +133,13 @@ def pairs : List Pair := [
   ⟨"cross", .mixSpace, .bin .cross v1 v2, .bin .cross v1 (.un (.to (.real 3 b1)) v2)⟩,
   ⟨"distance", .mixSpace, .bin .distance p1 p2, .bin .distance p1 p1⟩,
   ⟨"vector_project", .mixSpace, .bin .vproj v1 v2, .bin .vproj v1 v1⟩,
+  ⟨"scalar_project", .mixSpace, .bin .sproj v1 v2, .bin .sproj v1 v1⟩,
+  ⟨"distance_sqr", .mixSpace, .bin .distanceSqr p1 p2, .bin .distanceSqr p1 (.un (.to (.real 3 b1)) p2)⟩,
+  ⟨"Vector::clamp bounds of another basis", .mixSpace, .ter .clamp v1 v2 v2, .ter .clamp v1 v1 v1⟩,
+  ⟨"Point::clamp upper bound of another basis", .mixSpace, .ter .clamp p1 p1 p2, .ter .clamp p1 p1 p1⟩,
+  ⟨"Vary::dv_dt vec", .mixSpace, .ter .dvdt v1 v2 s, .ter .dvdt v1 v1 s⟩,
+  ⟨"Vary::dv_dt colour", .mixSpace, .ter .dvdt c1 c2 s, .ter .dvdt c1 (.un .toRgb c2) s⟩,
+  ⟨"orient_y with a tagged axis", .mixSpace, .bin .orientY v0 v1, .bin .orientY v0 (.un (.to (.real 3 .unit)) v1)⟩,
   ⟨"z of a 2-vector", .mixDim, .un .compZ w1, .un .compZ v1⟩,
   -- Matrix::apply / apply_pt
   ⟨"apply outside source", .applySource, .bin .apply m12 v2, .bin .apply m12 v1⟩,
@@ -174,6 +181,7 @@ def pairs : List Pair := [
   ⟨"angle.0", .angleUnit, .un .field0 a, .un .toRads a⟩,
   ⟨"angle + number", .angleUnit, .bin .add a s, .bin .add a (.un .rads s)⟩,
   ⟨"angle.min(number)", .angleUnit, .bin .min a s, .bin .min a (.un .degs s)⟩,
+  ⟨"angle % number", .angleUnit, .bin .rem a s, .bin .rem a (.un .turns s)⟩,
   ⟨"degs(angle)", .angleUnit, .un .degs a, .un .degs (.un .toDegs a)⟩,
   ⟨"asin(angle)", .angleUnit, .un .asin a, .un .asin (.un .sin a)⟩,
   ⟨"atan2(angle, number)", .angleUnit, .bin .atan2 a s, .bin .atan2 (.un .sin a) s⟩,
